@@ -578,6 +578,8 @@ class Interp:
             return f(self, args, kwargs)
         if isinstance(f, Opaque):
             return self.havoc_call(f.origin, args, kwargs)
+        if type(f).__name__ == 'AbsVal':         # instantiating an abstract class (a registered reader): an opaque call
+            return self.havoc_call('abstract %s' % f.kind, args, kwargs)
         if callable(f) and getattr(f, '_pyvc_native', False):
             return f(self, args, kwargs)
         raise Unsupported('call of %r' % (f,))
@@ -1098,7 +1100,7 @@ class Interp:
             return self.models.symbolic_for(self, st, frame, it, spec)
         if self.models.hook('map_append_for', self, st, frame, it):
             return
-        items = self.iterate(it, frame)
+        items = self.live_items(it, frame)
         broke = False
         for x in items:
             self.assign(st.target, x, frame)
@@ -1111,6 +1113,29 @@ class Interp:
                 continue
         if not broke:
             self.exec_block(st.orelse, frame)
+
+    def live_items(self, it, frame):
+        """items of a for statement over a CONCRETE container that the body may mutate: a dict / set whose size has changed when the
+        next item is asked for raises RuntimeError (CPython checks the size before it looks for the next key, also after the last
+        one); a list is walked by position over its CURRENT content"""
+        if isinstance(it, (dict, set)) and not isinstance(it, frozenset):
+            def gen_keys():
+                n0 = len(it)
+                for x in list(it):
+                    if len(it) != n0:
+                        raise PyExc('RuntimeError')
+                    yield x
+                if len(it) != n0:
+                    raise PyExc('RuntimeError')
+            return gen_keys()
+        if isinstance(it, list):
+            def gen_list():
+                i = 0
+                while i < len(it):
+                    yield it[i]
+                    i += 1
+            return gen_list()
+        return self.iterate(it, frame)
 
     def assigned_names(self, body):
         names = set()
